@@ -1145,7 +1145,7 @@ impl Expression {
                     })?;
                     ident
                 };
-                write!(value, "{ident}?{ident}:", ident = ident)?;
+                write!(value, "{ident}!=null?{ident}:", ident = ident)?;
                 y.to_proc_gen_rec_and_end_path(w, scopes, ExpressionLevel::Cond, path_calc, value)?;
                 PathAnalysisState::NotInPath
             }
